@@ -123,3 +123,13 @@ func verifB2I(c bool) int {
 }
 
 func verifNote(msg string, vals ...any) {}
+
+// verifLiveGoroutines reports goroutines of the engine's model other than the
+// caller; natively it cannot be known and the harness sleeps instead.
+func verifLiveGoroutines() int {
+	verifNativeSleep()
+	return 0
+}
+
+// verifQuiesce waits until all other goroutines are finished or blocked.
+func verifQuiesce() { verifNativeSleep(); verifNativeSleep() }
